@@ -317,6 +317,15 @@ class ToyVerify(Driver):
             return BAD("exception", "verify = %s (%s)" % (exp, why), v, clause="verify-sum-infinity" if why == "sum-infinity" else "verify-exception", why=why)
         if v is not exp:
             return BAD("accept-vs-reject", "verify = %s (%s)" % (exp, why), repr(v), clause="verify-" + why, why=why)
+        if 1 <= r < n and 1 <= s < n:
+            # the caller keeps its key in ONE list object and overwrites it in place: first another key, then this one
+            other = P_of(case["G"]) if P_of(case["G"]) != Q else (Q[0], (p - Q[1]) % p)
+            kl = list(other)
+            _try(lambda: g.verify(kl, z, (r, s)))
+            kl[:] = list(Q)
+            ok, v2 = _try(lambda: g.verify(kl, z, (r, s)))
+            if not ok or v2 is not exp:
+                return BAD("accept-vs-reject", "verify(list object now holding Q) = %s (%s)" % (exp, why), repr(v2), clause="verify-key-object-reused", why=why)
         if why == "range":
             why += ":" + ",".join(x for x, c in (("r=0", r == 0), ("s=0", s == 0), ("r>=n", r >= n), ("s>=n", s >= n)) if c)
         return OK(why + (":z=0 mod n" if z % n == 0 else ""))
